@@ -19,7 +19,7 @@ def _insert_after(txt, pattern, addition, what):
 def apply(dst):
     p = os.path.join(dst, 'src', 'task.rs')
     t = open(p).read()
-    t = _insert_after(t, r'pub fn start\(&mut self, id: BuildId, build: &Build\) \{\n',
+    t = _insert_after(t, r'pub fn start\(&mut self, id: BuildId, build: &Build(?:,[^)]*)?\) \{\n',
                       '        #[cfg(n2_verif)]\n        if crate::work::verif_sched::verif_active() {\n'
                       '            crate::work::verif_sched::on_start(id);\n            self.running += 1;\n            let _ = build;\n            return;\n        }\n',
                       'task::Runner::start')
